@@ -1081,7 +1081,25 @@ use crate::c04::exec;
 #[path = "c05x.rs"]
 pub mod x;
 
+/// stderr of `h_dom c05` goes to /dev/null (unless C05_DEBUG is set): the driver merges it into stdout
+fn silence_stderr() {
+    use std::sync::Once;
+    static ONCE: Once = Once::new();
+    ONCE.call_once(|| {
+        if std::env::var("C05_DEBUG").is_err() {
+            unsafe {
+                let fd = libc::open(b"/dev/null\0".as_ptr() as *const libc::c_char, libc::O_WRONLY);
+                if fd >= 0 {
+                    libc::dup2(fd, 2);
+                    libc::close(fd);
+                }
+            }
+        }
+    });
+}
+
 pub fn run(c: &Sexp) -> Sexp {
+    silence_stderr();
     exec::init();
     exec::reset();
     FLAT.with(|f| f.set(false));
@@ -1122,6 +1140,9 @@ fn run_case(c: &Sexp) -> Sexp {
     }
     if c.at(0).num() == 4 {
         return x::run_reactive(c);
+    }
+    if c.at(0).num() == 5 {
+        return x::run_leptos(c);
     }
     // shape 7 `(7 typed typed2 skip entry)`: a TYPED root (see `typed_flow`)
     if c.at(0).num() == 7 {
